@@ -12,6 +12,7 @@ import XotModel.Lemmas.Html5Esc
 import XotModel.Lemmas.Html5Names
 import XotModel.Lemmas.Html5Stream
 import XotModel.Lemmas.Html5Ctx
+import XotModel.Lemmas.Html5Embedded
 
 namespace XotModel.Props
 open XotModel XotModel.Gen
@@ -226,9 +227,12 @@ theorem C19_ids_ne_xml (env : Env) (p : HtmlParams) (hxml : env.namespaces[Env.x
     (htmlCtx env p).h.xhtml ≠ Env.xmlNamespace ∧ (htmlCtx env p).h.mathml ≠ Env.xmlNamespace ∧
     (htmlCtx env p).h.svg ≠ Env.xmlNamespace := html5_new_ne_xml env hxml
 
-/-- The injected declaration names the element's own namespace, and it is injected whenever the
-    name stack has no default binding for that namespace. -/
-theorem C19_embedded_inject (c : HtmlCtx) (s : FStack) (node : Tree) (parent : Option Tree) (name : Nat)
+/-- MathML / SVG (and `XHTML_NS`) elements: the default declaration of the element's own namespace
+    is written into the start tag whenever the name stack holds no default binding for that
+    namespace.  `hno` is the boundary of the defect `C19_embedded_defect`: the stack may hold a
+    stale binding (injected for an earlier element that had no frame of its own, or overridden by
+    a nearer injected one), and then nothing is written. -/
+theorem C19_embedded_partial (c : HtmlCtx) (s : FStack) (node : Tree) (parent : Option Tree) (name : Nat)
     (hm : c.h.mustBeUnprefixed (c.env.nsOfName name) = true)
     (hno : (s.push node.nsDecls).hasEmptyPrefix (c.env.nsOfName name) = false) :
     ∃ s', renderHtml c s node parent (.startTagOpen name) = .ok (s',
@@ -432,5 +436,115 @@ theorem C19_pi_refused (env : Env) (p : HtmlParams) (t : Tree) (start : Path) (p
   | ok u => cases u; exact absurd hr hnot
   | err e => exact ⟨e, rfl⟩
   | panic => exact absurd hr hnp
+
+/-! ### The written string consists of the rendered tokens -/
+
+/-- A returned string is the doctype followed by the tokens of `render_output` in event order
+    (each preceded by a space when flagged; with indentation, each also decorated with leading
+    spaces and possibly a trailing newline), and every token is the result of one `render_output`
+    call — so the token-level theorems above speak about every piece of every output. -/
+theorem C19_tokens (env : Env) (p : HtmlParams) (t : Tree) (start : Path) (out : Str)
+    (h : serializeHtmlString env p t start = .ok out) :
+    ∃ l, renderHtmlAll (htmlCtx env p) t (initStack t start) (genOutputs t start) = .ok l ∧
+      (∀ k ∈ l, ∃ s1 s2 node, t.at? k.1 = some node ∧
+        renderHtml (htmlCtx env p) s1 node (t.parentAt? k.1) k.2.1 = .ok (s2, k.2.2)) ∧
+      ∃ decor : List (Nat × Bool), decor.length = l.length ∧
+        (p.indentation = none → ∀ d ∈ decor, d = (0, false)) ∧
+        out = htmlDoctype ++ (List.zip decor l).flatMap (fun dk =>
+          (if dk.1.1 > 0 then htmlIndentBytes dk.1.1 else []) ++ htmlTokenBytes dk.2.2.2
+            ++ (if dk.1.2 then htmlNewline else [])) := by
+  unfold serializeHtmlString bufferToString at h
+  cases hr : (serializeHtmlWrite env p t start).2 with
+  | err e => rw [hr] at h; cases h
+  | panic => rw [hr] at h; cases h
+  | ok u =>
+    cases u
+    rw [hr] at h
+    simp only [Outcome.ok.injEq] at h
+    subst h
+    unfold serializeHtmlWrite at hr ⊢
+    cases hi : p.indentation with
+    | some sup =>
+      rw [hi] at hr
+      simp only at hr ⊢
+      obtain ⟨l, hl, decor, hlen, hb⟩ := writeHtmlPrettyGo_tokens _ sup t _ _ _ hr
+      exact ⟨l, hl, renderHtmlAll_mem _ t _ _ l hl, decor, hlen, by simp, by rw [hb]⟩
+    | none =>
+      rw [hi] at hr
+      simp only at hr ⊢
+      obtain ⟨l, hl, hb⟩ := writeHtmlGo_tokens _ t _ _ hr
+      refine ⟨l, hl, renderHtmlAll_mem _ t _ _ l hl, List.replicate l.length (0, false), by simp,
+        fun _ d hd => (List.eq_of_mem_replicate hd), ?_⟩
+      rw [hb]
+      congr 1
+      clear hb hl hr
+      induction l with
+      | nil => rfl
+      | cons k l ih =>
+        simp only [List.length_cons, List.replicate_succ, List.zip_cons_cons, List.flatMap_cons]
+        rw [ih]
+        simp
+
+/-! ### MathML / SVG under a default-namespace declaration: false as stated -/
+
+/-- Full strength: in every successful serialisation, every MathML / SVG start tag is written
+    while the default namespace declared by the written start tags around it (its own included)
+    is the element's namespace. -/
+def C19_embedded_Statement : Prop :=
+  ∀ (env : Env) (p : HtmlParams) (t : Tree) (start : Path) (l : List (Path × Output × OutputToken)),
+    renderHtmlAll (htmlCtx env p) t (initStack t start) (genOutputs t start) = .ok l →
+    embeddedUnderDefault (htmlCtx env p) [] l = true
+
+/-- The vocabulary of the witnesses: namespaces `""`, XML, SVG; names `div` (none), `svg` (SVG). -/
+def witnessEnv : Env :=
+  ⟨[[], xmlNs, svgNs], [[], ['x','m','l']], [(['s','p','a','c','e'], 1), (['i','d'], 1), (['d','i','v'], 0), (['s','v','g'], 2)]⟩
+
+/-- `<div><svg/><svg/></div>`, both `svg` in the SVG namespace, no declarations anywhere. -/
+def witnessTwoSvg : Tree := .node (.element 2) [.node (.element 3) [], .node (.element 3) []]
+
+/-- DEFECT (html5_serializer.rs `StartTagOpen` + fullname.rs `add_empty_prefix`): the binding
+    injected for the first `svg` is appended to the frame of `div` (the element pushed no frame of
+    its own) and is still there when the second `svg` starts, which is therefore written `<svg>`
+    with no declaration in scope. -/
+theorem C19_embedded_defect : ¬ C19_embedded_Statement := by
+  intro h
+  have := h witnessEnv {} witnessTwoSvg []
+    (match renderHtmlAll (htmlCtx witnessEnv {}) witnessTwoSvg (initStack witnessTwoSvg [])
+        (genOutputs witnessTwoSvg []) with | .ok l => l | _ => [])
+    (by decide)
+  revert this
+  decide
+
+/-- What the implementation writes for the witness (the harness sees the same string). -/
+example : toHtmlString witnessEnv witnessTwoSvg [] = .ok
+    ['<','!','D','O','C','T','Y','P','E',' ','h','t','m','l','>','<','d','i','v','>','<','s','v','g',' ','x','m','l','n','s','=','"','h','t','t','p',':','/','/','w','w','w','.','w','3','.','o','r','g','/','2','0','0','0','/','s','v','g','"','>','<','/','s','v','g','>','<','s','v','g','>','<','/','s','v','g','>','<','/','d','i','v','>'] := by decide
+
+/-! ### Non-vacuity -/
+
+/-- Void, raw text, nbsp, boolean attribute, upper-case names: `<div><BR></BR>…` never appears. -/
+example :
+    toHtmlString
+      ⟨[[], xmlNs], [[], ['x','m','l']],
+       [(['s','p','a','c','e'], 1), (['i','d'], 1), (['d','i','v'], 0), (['B','R'], 0), (['s','c','r','i','p','t'], 0),
+        (['c','h','e','c','k','e','d'], 0), (['p'], 0)]⟩
+      (.node (.element 2) [.node (.attribute 5 ['C','H','E','C','K','E','D']) [],
+        .node (.element 3) [], .node (.element 4) [.node (.text ['a','<','b','&']) []],
+        .node (.element 6) [.node (.text ['a','<','b','&',' ','"']) []]]) []
+    = .ok ['<','!','D','O','C','T','Y','P','E',' ','h','t','m','l','>','<','d','i','v',' ','c','h','e','c','k','e','d','>','<','B','R','>','<','s','c','r','i','p','t','>','a','<','b','&','<','/','s','c','r','i','p','t','>','<','p','>','a','&','l','t',';','b','&','a','m','p',';','&','n','b','s','p',';','"','<','/','p','>','<','/','d','i','v','>'] := by decide
+
+/-- `C19_pi` / `C19_pi_refused` are not vacuous: `<?pi a>b>` is refused. -/
+example :
+    toHtmlString ⟨[[], xmlNs], [[], ['x','m','l']], [(['s','p','a','c','e'], 1), (['i','d'], 1), (['p','i'], 0)]⟩
+      (.node .document [.node (.pi 2 (some ['a','>','b'])) []]) [] = .err .processingInstructionGtInHtml := by decide
+
+/-- Text directly under a document node and a detached text node are escaped as XML text. -/
+example :
+    toHtmlString ⟨[[], xmlNs], [[], ['x','m','l']], [(['s','p','a','c','e'], 1), (['i','d'], 1)]⟩
+      (.node .document [.node (.text ['a','<','&']) []]) [] = .ok ['<','!','D','O','C','T','Y','P','E',' ','h','t','m','l','>','a','&','l','t',';','&','a','m','p',';'] := by decide
+
+/-- `C19_unprefixed` / `C19_ids_ne_xml`: the hypotheses hold in the witness vocabulary. -/
+example : witnessEnv.namespaces[Env.xmlNamespace]? = some xmlNs ∧
+    (htmlCtx witnessEnv {}).h.mustBeUnprefixed ((htmlCtx witnessEnv {}).env.nsOfName 3) = true ∧
+    (htmlCtx witnessEnv {}).h.isHtmlNamespace ((htmlCtx witnessEnv {}).env.nsOfName 2) = true := by decide
 
 end XotModel.Props
